@@ -129,6 +129,10 @@ where
         }
     }
 
+    fn on_aborted_transfer(&mut self, delivery_tag: &DeliveryTag) {
+        self.remove_from_unsettled(delivery_tag);
+    }
+
     fn on_complete_transfer<'a, T, P>(
         &mut self,
         transfer: Transfer,
@@ -162,7 +166,9 @@ where
 
         let (result, mode) = if settled_by_sender {
             // If the message is pre-settled, there is no need to
-            // add to the unsettled map and no need to reply to the Sender
+            // add to the unsettled map and no need to reply to the Sender.
+            // The earlier frames of a multi-frame delivery were recorded there, though
+            self.remove_from_unsettled(&delivery_tag);
             let result = T::decode_message_from_reader(payload.into_reader());
             (result, None)
         } else {
@@ -438,6 +444,12 @@ impl ReceiverLink<Target> {
 }
 
 impl<T> ReceiverLink<T> {
+    fn remove_from_unsettled(&self, delivery_tag: &DeliveryTag) {
+        if let Some(map) = self.unsettled.write().as_mut() {
+            let _ = map.swap_remove(delivery_tag);
+        }
+    }
+
     fn handle_unsettled_in_attach(
         &mut self,
         remote_unsettled: Option<OrderedMap<DeliveryTag, Option<DeliveryState>>>,
